@@ -4,26 +4,36 @@ import re
 
 from symx import stubs
 from vf.scen import Scenario, run_scenarios
-from harness import exprkit
+from harness import exprkit, charkit
+from symx import symstr
 
 PROPERTY = 'C01'
 ENCODED = ['scinumtools.solver.solver:ExpressionSolver.__init__', 'scinumtools.solver.solver:ExpressionSolver.solve', 'scinumtools.solver.tokens:Tokens.operate',
            'scinumtools.solver.expression:Expression', 'scinumtools.solver.atom:AtomBase', 'scinumtools.solver.operators:OperatorAdd.operate_unary',
            'scinumtools.solver.operators:OperatorSub.operate_unary', 'scinumtools.solver.operators:OperatorPar.__init__', 'scinumtools.solver.operators:OperatorNot.operate_unary',
-           'scinumtools.solver.operators:OperatorLogb.operate_args', 'scinumtools.solver.operators:OperatorPowb.operate_args', 'scinumtools.solver.operators:OperatorExp.operate_args']
+           'scinumtools.solver.operators:OperatorLogb.operate_args', 'scinumtools.solver.expression:Expression.shift', 'scinumtools.solver.expression:Expression.pop_left', 'scinumtools.solver.tokens:Tokens.operate', 'scinumtools.solver.operators:OperatorPowb.operate_args', 'scinumtools.solver.operators:OperatorExp.operate_args']
 EXPLANATION = ("Every numeric leaf of an expression skeleton is a solver variable (sentinel numerals in the text, mapped to proxies by the module-local float() of solver.atom); "
                "the real tokeniser, step table and operator classes run unchanged; &&, || and ! call Python truthiness on proxies, which forks, so all truth combinations are paths. "
                "On every path z3 proves the returned value equals the value of a reference evaluator that follows the documented step table (read from docs/source/solver/index.rst "
-               "at run time and compared with the evaluator's own table). Blank layouts must give identical terms; single-edit ill-formed variants must raise on every path.")
+               "at run time and compared with the evaluator's own table). Blank layouts must give identical terms; single-edit ill-formed variants must raise on every path. "
+               "Character level: the expression text itself is symbolic (symx.SymStr: every free position is a solver integer over printable non-letter ASCII); the real Expression/"
+               "tokeniser/OperatorPar scanning run on it, each startswith/strip/float() decision forking in the engine, and on every path the outcome is compared with an independent "
+               "character-level reference (lexer, classifier of the three ill-formed categories named by the property, recursive-descent parser of the stratified grammar, digit strings "
+               "as linear terms of the character codes): all strings up to the length bound, and every single substitution/insertion (and sampled pairs) in rendered well-formed texts.")
 ASSUMPTIONS = [
     "name `float` in scinumtools.solver.atom is symx.Float (sentinel numerals map to solver variables); np.log/log10/sqrt/sin/cos/tan reach proxies through __array_ufunc__ as uninterpreted functions",
     "leaves are non-negative reals (a negative literal would render as a unary minus); negative values arise through the unary operator",
     "division assumes a non-zero divisor on that path; log/sqrt of negative values are total uninterpreted functions",
     "reals stand for binary64",
+    "character level: names `str` in solver.solver/solver.atom are symx.Str (SymStr counts as str) and `float` in solver.atom is symx.FloatS: float() of a symbolic text is modelled exactly for free characters "
+    "that are printable ASCII other than letters and '_' (digits with at most one point, surrounding blanks); free characters are restricted to that alphabet, letters occur only as concrete text (function names)",
+    "character level: ill-formed = unbalanced parentheses (character count), a function with the wrong number of top-level arguments, or a binary operator (sign at the end) with no operand-start/operand-end token next to it; "
+    "strings outside both the stratified grammar and these categories (foreign characters, '()', '1 2', '!!1', truth values used as numbers) carry no claim",
+    "character level: paths on which a concrete sub-expression is non-finite or complex (log of a negative, division by zero) carry no claim",
 ]
-OUTSIDE = ['!!a and -!a (outside the stratified grammar)', 'log/log10/sqrt/sin/cos/tan/logb applied directly to a truth value such as sin(!0) (NumPy evaluates them in float16)', 'exponent-notation literals such as 1e-3', 'expressions with more operator occurrences than the bound']
-BOUNDS = {'quick': 'all skeletons of the stratified grammar over the full default operator table with <= 2 operator occurrences, 1500 sampled with 3, 300 with 4; 3 blank layouts; ill-formed single edits of 150 skeletons',
-          'thorough': 'all skeletons with <= 3 operator occurrences (32 822), 6000 sampled with 4, 1500 with 5-6 over class representatives; ill-formed single edits of 1500 skeletons'}
+OUTSIDE = ['free characters that are letters or underscore (exponent notation, inf/nan, misspelt function names)', 'free strings longer than 3 (quick) / 4 (thorough) characters; three or more simultaneous edits', '!!a and -!a (outside the stratified grammar)', 'log/log10/sqrt/sin/cos/tan/logb applied directly to a truth value such as sin(!0) (NumPy evaluates them in float16)', 'exponent-notation literals such as 1e-3', 'expressions with more operator occurrences than the bound']
+BOUNDS = {'quick': 'all skeletons of the stratified grammar over the full default operator table with <= 2 operator occurrences, 1500 sampled with 3, 300 with 4; 3 blank layouts; ill-formed single edits of 150 skeletons; character level: all strings of <= 3 free characters, one free character substituted/inserted at every position of 30 rendered texts (and all single deletions), 8 double substitutions',
+          'thorough': 'all skeletons with <= 3 operator occurrences (32 822), 6000 sampled with 4, 1500 with 5-6 over class representatives; ill-formed single edits of 1500 skeletons; character level: all strings of <= 4 free characters, edits of 200 texts, 60 double substitutions'}
 EXHAUSTIVE = {'quick': False, 'thorough': False}
 PRE = "from scinumtools.solver import ExpressionSolver, AtomBase\n" + exprkit.EXPR_SRC
 SRC = '''
@@ -57,6 +67,81 @@ def apply_edit(text, edit):
         return text[:pos] + text[edit[2]:]
     raise ValueError(edit)
 '''
+
+
+CHAR_PRE = PRE + charkit.CHAR_SRC
+CHAR_SRC = '''
+def run(v, O):
+    s = O.text([getattr(v, p[1:]) if p.startswith('@') else p for p in v.parts])
+    return char_claims(O, s)
+'''
+
+
+def base_strings(rnd, n):
+    """well-formed expression texts with concrete small numbers (rendered skeletons of the stratified grammar)"""
+    g = exprkit.Gen()
+    pool = g.all(1) + g.all(2) + rnd.sample(g.all(3), 400)
+    pool = [t for t in pool if not exprkit.fn_of_bool(t)]
+    ns = {}
+    exec(exprkit.EXPR_SRC, ns)
+    nums = ['1', '2', '3', '0', '7', '12', '2.5', '.5', '4.', '10']
+
+    def conc(t):
+        k = t[0]
+        if k == 'num':
+            return ('const', rnd.choice(nums))
+        if k == 'bin':
+            return ('bin', t[1], conc(t[2]), conc(t[3]))
+        if k == 'un':
+            return ('un', t[1], conc(t[2]))
+        if k == 'par':
+            return ('par', conc(t[1]))
+        if k == 'fn':
+            return ('fn', t[1], [conc(a) for a in t[2]])
+        return t
+    out = []
+    for t in rnd.sample(pool, min(n, len(pool))):
+        out.append(ns['render'](None, None, conc(t), rnd.choice([0, 0, 1, 2])))
+    return out
+
+
+def char_scenarios(tier, seed):
+    rnd = random.Random(seed + 77)
+    S = []
+    # (A) every string of printable non-letter ASCII characters up to the length bound
+    special = '()*/+-<>=!&|,. '
+    cells = [(repr(ch), [f'v.c0 == {ord(ch)}']) for ch in special] + [('digit', ['v.c0 >= 48', 'v.c0 <= 57']),
+             ('other', ['z3.And(' + ', '.join(f'v.c0.t != {ord(ch)}' for ch in special) + ', z3.Not(z3.And(v.c0.t >= 48, v.c0.t <= 57)))'])]
+    for n in (1, 2, 3) if tier == 'quick' else (1, 2, 3, 4):
+        # the first character's class splits the exploration into independent cells (parallel tasks); together they cover every first character
+        for cname, cpre in (cells if n >= 3 else [('any', [])]):
+            S.append(Scenario(f'chars/free/{n}/{cname}', CHAR_SRC, {f'c{i}': 'char' for i in range(n)}, cpre, consts={'parts': [f'@c{i}' for i in range(n)]}, preamble=CHAR_PRE,
+                              what=f'every string of {n} printable non-letter characters (first character: {cname})', samples=20))
+    # (B) one free character substituted / inserted at every position of a well-formed text, (C) two free characters
+    bases = base_strings(rnd, 30 if tier == 'quick' else 200)
+    for bi, text in enumerate(bases):
+        for p in range(len(text) + 1):
+            if p < len(text):
+                S.append(Scenario(f'chars/subst/{bi}@{p}', CHAR_SRC, {'c0': 'char'}, consts={'parts': [text[:p], '@c0', text[p + 1:]]}, preamble=CHAR_PRE,
+                                  what=f'any character in place of position {p} of {text!r}', samples=3))
+            S.append(Scenario(f'chars/insert/{bi}@{p}', CHAR_SRC, {'c0': 'char'}, consts={'parts': [text[:p], '@c0', text[p:]]}, preamble=CHAR_PRE,
+                              what=f'any character inserted at position {p} of {text!r}', samples=3))
+        if len(text) >= 2:
+            S.append(Scenario(f'chars/delete/{bi}', CHAR_SRC.replace('return char_claims(O, s)', 'out = []\n    for p in range(len(s)):\n        out += [(f"deleted {p}: " + l, c) for l, c in char_claims(O, s[:p] + s[p + 1:])]\n    return out'),
+                              {}, consts={'parts': [text]}, preamble=CHAR_PRE, what=f'every single deletion from {text!r}', samples=1))
+    for bi, text in enumerate(bases[:8] if tier == 'quick' else bases[:60]):
+        if len(text) < 3:
+            continue
+        p, q = sorted(rnd.sample(range(len(text)), 2))
+        S.append(Scenario(f'chars/subst2/{bi}@{p},{q}', CHAR_SRC, {'c0': 'char', 'c1': 'char'}, consts={'parts': [text[:p], '@c0', text[p + 1:q], '@c1', text[q + 1:]]}, preamble=CHAR_PRE,
+                          what=f'any two characters in place of positions {p},{q} of {text!r}', samples=3))
+    S.append(Scenario('canary/chars', CHAR_SRC.replace('char_claims(O, s)', "[(l, (c if l != 'value follows the documented order' else O.veq(lib_outcome(s)[1], evalchar(O, classify(O, s)[1]) + 1))) for l, c in char_claims(O, s)]"),
+                      {'c0': 'char'}, consts={'parts': ['2*', '@c0', '+1']}, preamble=CHAR_PRE, canary=True))
+    return S
+
+
+def char_patches():
+    return stubs.patched([('scinumtools.solver.atom', 'float', symstr.FloatS), ('scinumtools.solver.atom', 'str', symstr.Str), ('scinumtools.solver.solver', 'str', symstr.Str)])
 
 
 def doc_table():
@@ -164,8 +249,12 @@ def scenarios(tier, seed):
 NT = 64
 
 
+NCH = 32
+
+
 def tasks(tier, seed):
-    return [{'id': f'c01-{i:02d}', 'tier': tier, 'seed': seed, 'slice': [i, NT]} for i in range(NT)]
+    return ([{'id': f'c01-{i:02d}', 'tier': tier, 'seed': seed, 'slice': [i, NT]} for i in range(NT)]
+            + [{'id': f'c01-ch-{i:02d}', 'tier': tier, 'seed': seed, 'chars': [i, NCH]} for i in range(NCH)])
 
 
 def patches():
@@ -173,6 +262,12 @@ def patches():
 
 
 def run_task(task):
+    if 'chars' in task:
+        S = char_scenarios(task['tier'], task['seed'])
+        S.sort(key=lambda sc: (not sc.key.startswith('chars/free/'), sc.key))
+        i, k = task['chars']
+        # the free-string scenarios are the heavy ones: put each in its own slot, spread the rest
+        return run_scenarios(S[i::k], char_patches, timeout_ms=20000, seed=task['seed'], wall_s=3000, max_paths=400000, div_zero='assume')
     S = scenarios(task['tier'], task['seed'])
     i, k = task['slice']
     res = run_scenarios(S[i::k], patches, timeout_ms=20000, seed=task['seed'], wall_s=600, div_zero='assume')
